@@ -57,7 +57,9 @@ def check_reader(run, f, writers):
 
 
 def check_alloc(run, f):
-    allocs = [st for st, _ in walk(f.node) if isinstance(st, ast.Assign) and norm(st.targets[0]) == 'g' and isinstance(st.value, ast.Call)]
+    roles = RW.reader_roles(f)
+    G, Pn, H = roles.get('g', 'g'), roles.get('p', 'p'), roles.get('h', 'h')
+    allocs = [st for st, _ in walk(f.node) if isinstance(st, ast.Assign) and norm(st.targets[0]) == G and isinstance(st.value, ast.Call)]
     ok = len(allocs) == 1 and allocs[0].value.args and norm(allocs[0].value.args[0]).replace(' ', '') == '2*N'
     run.check(ok, 'R12.alloc', f, 'g = zeros(2*N)', 'the string has two slots per position')
     rets = [(st, ctx) for st, ctx in walk(f.node) if isinstance(st, ast.Return) and isinstance(st.value, ast.Call) and norm(st.value.func) == 'Pauli'
@@ -67,17 +69,17 @@ def check_alloc(run, f):
         a0 = st.value.args[0]
         for h in (0, 1, 2):
             from ..rules import tables
-            if tables.holds(ctx.conds, {'h': h}) is True:
+            if tables.holds(ctx.conds, {H: h}) is True:
                 if isinstance(a0, ast.Name):
                     run.check(h == 0, 'R12.alloc', f, st, 'with %d non-qubit characters the string must be trimmed' % h)
                 elif isinstance(a0, ast.Subscript) and isinstance(a0.slice, ast.Slice) and a0.slice.lower is None:
                     try:
-                        up = ev(a0.slice.upper, {'h': h})
+                        up = ev(a0.slice.upper, {H: h})
                     except Undecidable:
                         up = None
                     run.check(h > 0 and up == -2 * h, 'R12.alloc', f, st, 'h=%d non-qubit positions leave 2*h unused slots at the end: trim [: -2*h] (found upper bound %r)' % (h, up))
                 seen.add(h)
-        run.check(norm(st.value.args[1]) == 'p', 'R12.alloc', f, st, 'the parsed phase must be passed to the operator')
+        run.check(norm(st.value.args[1]) == Pn, 'R12.alloc', f, st, 'the parsed phase must be passed to the operator')
     run.check(seen == {0, 1, 2}, 'R12.alloc', f, 'return', 'every prefix length must produce an operator (covered h: %s)' % sorted(seen))
 
 
@@ -87,9 +89,10 @@ def getitem_checks(run, repo, prel):
         g = repo.func(prel, q)
         n = parallel.parallel_args(run, g)
         item = g.posparams[1]
+        from ..names import deref
         for c in ast.walk(g.node):
             if isinstance(c, ast.Call) and isinstance(c.func, ast.Name) and c.func.id in ('Pauli', 'PauliList', 'PauliMonomial', 'PauliPolynomial'):
-                args = [norm(a).replace(' ', '') for a in c.args]
+                args = [norm(deref(g, a)).replace(' ', '') for a in c.args]
                 run.check(args == ['self.gs[%s]' % item, 'self.ps[%s]' % item], 'R13.getitem', g, c, 'selection must take strings and phases with the same index')
         if q.startswith('PauliPolynomial'):
             cs = [c for c in ast.walk(g.node) if isinstance(c, ast.Call) and isinstance(c.func, ast.Attribute) and c.func.attr in ('set_cs', 'set_c')]
